@@ -64,6 +64,8 @@ inline bool within(vf::Ctx& ctx, const std::string& ratio_name, LD obs, LD allow
     LD ratio = (allow > 0) ? obs / allow : (obs == 0 ? LD(0) : std::numeric_limits<LD>::infinity());
     if (!(obs == obs)) ratio = std::numeric_limits<LD>::infinity();
     ctx.maxratio(ratio_name, ratio);
+    static const bool trace = std::getenv("VF_TRACE") != nullptr;
+    if (trace && ratio > LD(0.2)) fprintf(stderr, "TRACE case %ld %s observed %.4Lg allowed %.4Lg ratio %.3Lg\n", ctx.idx, ratio_name.c_str(), obs, allow, ratio);
     return ratio <= LD(1);
 }
 
